@@ -151,6 +151,7 @@ static int process_completed_fragment(sqfs_block_processor_t *proc,
 	if (!(frag->flags & SQFS_BLK_DONT_DEDUPLICATE)) {
 		search.hash = frag->checksum;
 		search.size = frag->size;
+		search.flags = frag->flags & SQFS_BLK_DONT_COMPRESS;
 
 		proc->current_frag = frag;
 		proc->fblk_lookup_error = 0;
@@ -226,6 +227,7 @@ static int process_completed_fragment(sqfs_block_processor_t *proc,
 		chunk->offset = offset;
 		chunk->size = frag->size;
 		chunk->hash = frag->checksum;
+		chunk->flags = frag->flags & SQFS_BLK_DONT_COMPRESS;
 
 		proc->current_frag = frag;
 		proc->fblk_lookup_error = 0;
